@@ -113,6 +113,10 @@ def hopR? : Sexp → Option HOpR
       let cls ← cls.toNat?; let enc ← enc.toNat?; let cb ← cb.toBool?; let fault ← fault? fault
       let before ← before.toBool?; let c ← c.toNat?; let bad ← bad.toBool?
       pure (.loadRace ⟨base, sub, absd, rel, cls, enc, cb, fault⟩ ⟨before, c, bad⟩)
+  -- a modification that sets an arbitrary modification time
+  | .list [.atom "WA", d, sub, base, c, bad, m] => do
+      let l ← loc? d sub base; let c ← c.toNat?; let b ← bad.toBool?; let m ← m.toNat?
+      pure (.writeAt l c b m)
   | x => (hop? x).map .plain
 
 def reqOf : HOpR → Option Req
